@@ -678,7 +678,16 @@ func (r *Run) ViewStep(op Op) {
 			tr.Outcome = "DEVIATION"
 		}
 	}()
-	r.SyncFeeds() // learn the datatype of every current version from its live event
+	// learn the datatype of every current version from its live event - but only when some
+	// document's datatype is still unknown: the sync writes (and removes) a sentinel document, and a
+	// query that is always preceded by a write through handle 0 would never see an index that
+	// wrongly believes itself up to date
+	for _, k := range r.W.Model.Keys(op.C) {
+		if ki := r.W.Model.Info(op.C, k); ki.St.HasBody() && ki.IsJSON == nil {
+			r.SyncFeeds()
+			break
+		}
+	}
 	r.step = r.nDo - 1
 	vo := op.View
 	spec, ok := r.ddocs(op.C)[vo.DDoc][vo.Name]
@@ -798,7 +807,7 @@ func genPutDDoc(rt *rapid.T, r *Run) (Op, bool) {
 		op.H = rapid.IntRange(0, len(r.W.Handles)-1).Draw(rt, "dd.h")
 	}
 	specs := map[string]ViewSpec{}
-	n := rapid.IntRange(1, 2).Draw(rt, "dd.nviews")
+	n := pick(rt, []int{1, 1, 1, 2, 2, 2, 2, 0}, "dd.nviews") // (a design document may have no views at all)
 	for i := 0; i < n; i++ {
 		specs[viewNames[i]] = genViewSpec(rt)
 	}
